@@ -22,10 +22,23 @@ def race_stage(ctx, stage):
         t0 = time.time()
         p = subprocess.run([drv, "race", "-seed", str(seed), "-rounds", str(rounds), "-goroutines", str(gor), "-out", trace],
                            env=env, stdout=subprocess.PIPE, stderr=subprocess.PIPE, text=True, timeout=3000)
+        fatal = ""
         if p.returncode not in (0, 66):
-            raise engine.Infra("race driver failed rc=%d %s" % (p.returncode, p.stderr[-1500:]))
-        st = json.loads(p.stdout.strip().splitlines()[-1]) if p.stdout.strip() else {"calls": 0, "mismatches": 0}
+            # the Go runtime aborts the whole process on unsynchronised map access: that IS a data race
+            m = re.search(r"fatal error: (concurrent map[^\n]*)", p.stderr)
+            if not m:
+                raise engine.Infra("race driver failed rc=%d %s" % (p.returncode, p.stderr[-1500:]))
+            fatal = m.group(1)
+        st = {"calls": 0, "mismatches": 0}
+        if p.stdout.strip():
+            try:
+                st = json.loads(p.stdout.strip().splitlines()[-1])
+            except ValueError:
+                pass
         reports = []
+        if fatal:
+            frames = re.findall(r"go-domdistiller[^\s(]*\.([A-Za-z0-9_().*]+)\(", p.stderr)
+            reports.append("DATA RACE (runtime abort): " + fatal + " in " + ",".join(frames[:3]))
         for f in glob.glob(logp + "*"):
             txt = open(f, errors="replace").read()
             reports += [r for r in txt.split("==================") if "DATA RACE" in r]
@@ -33,7 +46,7 @@ def race_stage(ctx, stage):
         where = "none"
         if reports:
             m = re.findall(r"go-domdistiller[^\s(]*\.([A-Za-z0-9_().*]+)\(\)", reports[0])
-            where = ",".join(m[:2]) if m else "unknown"
+            where = ",".join(m[:2]) if m else ("runtime-abort-concurrent-map-access" if fatal else "unknown")
         scan = subprocess.run([ctx["driver"], "scan", "-repo", engine.REPO], stdout=subprocess.PIPE, text=True, timeout=300)
         writes = json.loads(scan.stdout)["writes"]
         with open(trace, "a") as f:
